@@ -294,7 +294,9 @@ def mon_c14(trace):
             with np.errstate(divide="ignore", invalid="ignore"):
                 z = np.where(d != 0, (d - x) / np.where(d != 0, d, 1.0), 0.0)
             if abase == 1.0:
-                rose = a1 > a0 * (1 + 1e-15)
+                # a rise below 1e-11 is the update applied to a rounding-level scarcity (the total demand is a
+                # floating-point sum; with steps longer than the characteristic time the rate amplifies it)
+                rose = a1 > a0 * (1 + 1e-11)
                 bad = rose & ~(d > x)
                 if np.any(bad):
                     f = _first_bad(~bad)
@@ -306,7 +308,7 @@ def mon_c14(trace):
                     f = int(np.flatnonzero(rose)[_first_bad(ok)[0]])
                     out.append(_fail("C14", trace, t, "rise differs from (max - current) * scarcity / tau", a1[f], want[f], f))
                 met = d <= x
-                if np.any(a1[met] > a0[met] * (1 + 1e-15)):
+                if np.any(a1[met] > a0[met] * (1 + 1e-11)):
                     out.append(_fail("C14", trace, t, "overproduction increased with demand met"))
     return out
 
